@@ -53,9 +53,9 @@ def spellings_of(order, rng, limit):
 def classes(ctx):
     """(centre, multiset) classes with their member spellings."""
     rng = ctx.rng
-    maxk = ctx.n(3, 5)
+    maxk = ctx.n(3, 4)
     out = []
-    for c in CENTRES[:ctx.n(3, 6)]:
+    for c in CENTRES[:ctx.n(3, 4)]:
         for k in range(0, maxk + 1):
             for ms in itertools.combinations_with_replacement(NAMES, k):
                 out.append((c, ms, True))
@@ -79,8 +79,8 @@ def members_of(c, ms, exhaustive, ctx):
     mem = []
     for o in orders:
         mem.append({'op': 'ctor', 'c': c, 'ps': list(o)})
-    lim = 64 if exhaustive else 4
-    for o in orders[:ctx.n(12, 120)]:
+    lim = (ctx.n(64, 24)) if exhaustive else 4
+    for o in orders[:ctx.n(12, 24)]:
         for runs in spellings_of(o, rng, lim):
             mem.append({'op': 'parse', 'text': spell(c, runs), 'runs': runs})
     if ms and rng.random() < 0.3:   # explicit zero count of some other name
@@ -121,7 +121,7 @@ Fixpoint mism (i : nat) (l : list (outcome str * outcome str)) : list nat :=
 def correspondence(ctx, specs, results, tag):
     """model vs implementation on outcome cases; returns mismatch indices"""
     shards = []
-    step = 400
+    step = 1500
     for s in range(0, len(specs), step):
         body = ';\n'.join(coq_case(sp, rs) for sp, rs in
                           zip(specs[s:s + step], results[s:s + step]))
@@ -228,7 +228,7 @@ def run(ctx):
         'rule': 'classes = (centre, multiset) exhaustive up to size %d over %d names x %d centres, all orderings, '
                 'all run-length spellings (<=64 per ordering) + random larger ones; malformed/random texts; '
                 'non-trivial = has peripherals or parentheses; distinct by spelling'
-                % (ctx.n(3, 5), len(NAMES), ctx.n(3, 6)),
+                % (ctx.n(3, 4), len(NAMES), ctx.n(3, 4)),
         'histogram': dict(hist, classes=len(cls), cross_pairs=len(pairs)),
         'exhaustive': False,
         'correspondence_cases': len(specs), 'correspondence_mismatches': len(bad)})
